@@ -213,6 +213,52 @@ def r3(run: Run, src):
                   fact=f'0 <= {i} < len({cont})', loc=loc_of(fc.module.path, acc))
 
 
+def r12_results_are_text(run: Run, src, g, em):
+    """a translator's result is spliced into code text: a result that is not a str (COLUMN() without argument gives an int) is
+    harmless only while every consumer formats it (f-string, str()); handed on unchanged to a consumer that joins or concatenates
+    strings it raises TypeError during translation"""
+    from ..symeval import Code, NumV, Const, Part
+    nonstr, raw = {}, {}
+    for e in em.emissions():
+        o = e.outcome
+        if o.kind != 'return' or em.unreachable(e):
+            continue
+        v = o.value
+        if isinstance(v, NumV) or (isinstance(v, Const) and not isinstance(v.value, str) and v.value is not None):
+            nonstr.setdefault(e.translator, e)
+        if isinstance(v, Code) and len(v.parts) == 1 and isinstance(v.parts[0], Part) and v.parts[0].kind == 'slot' and \
+                not v.parts[0].fmt:
+            raw.setdefault(e.translator, set()).add(v.parts[0].a)
+    ns = dict(nonstr)
+    why = {t: f'{t} returns a number in the world {e.world[:60]}' for t, e in nonstr.items()}
+    changed = True
+    while changed:
+        changed = False
+        for t, subs in raw.items():
+            for s_ in subs:
+                if s_ in ns and t not in ns:
+                    ns[t] = ns[s_]
+                    why[t] = f'{t} hands on the result of {s_} unchanged; ' + why[s_]
+                    changed = True
+    n = 0
+    for e in em.emissions():
+        o = e.outcome
+        if o.kind not in ('return', 'raise') or em.unreachable(e):
+            continue
+        for eff in o.effects:
+            if eff.kind == 'str-required':
+                n += 1
+                sl = eff.detail['slot']
+                construct = f'{e.translator}/{eff.detail["how"]} of the result of {sl}'
+                ci = src.cls(e.translator)
+                run.check(sl not in ns, 'C06.R12', construct, 'non-text-result-joined',
+                          f'{e.translator} passes the result of {sl} to {eff.detail["how"]}, which needs a str, but {why.get(sl, "")}: '
+                          f'translation ends in TypeError (e.g. COLUMN() as an argument of a list function)',
+                          fact='result is text', loc=loc_of(ci.module.path, ci.node))
+    if n < 3:
+        raise AnalysisError('C06.R12', f'only {n} joins of translator results analysed')
+
+
 def _signature(fn: ast.FunctionDef):
     static = any((isinstance(d, ast.Name) and d.id == 'staticmethod') for d in fn.decorator_list)
     a = fn.args
@@ -656,6 +702,9 @@ def run(run: Run):
     from .common import check_per_instance_state
     run.rule('C06.R11', 'titles / sizes / overrides of the generated class are per instance')
     run.guard('C06.R11', check_per_instance_state, run, 'C06.R11', get_runtime(get_source()))
+    run.rule('C06.R12', 'a translator result that may be a number only reaches consumers that format it')
+    run.guard('C06.R12', r12_results_are_text, run, src, g, em)
+    run.floor('C06.R12', 3)
     run.floor('C06.R11', 6)
     run.floor('C06.R10', 5)
     run.floor('C06.R1', 15)
